@@ -60,9 +60,9 @@ type proc struct {
 }
 
 var (
-	reMaint = regexp.MustCompile(`file plugin maintenance stats: not done=(\d+), resumed=(\d+)`)
-	reStat  = regexp.MustCompile(`events in use=(-?\d+)/\d+.* total=(\d+)\|`)
-	reID    = regexp.MustCompile(`@k\d+-\d{6}@`)
+	reMaint    = regexp.MustCompile(`file plugin maintenance stats: not done=(\d+), resumed=(\d+)`)
+	reStat     = regexp.MustCompile(`events in use=(-?\d+)/\d+.* total=(\d+)\|`)
+	reID       = regexp.MustCompile(`@k\d+-\d{6}@`)
 	reJobID    = regexp.MustCompile(`^job (\d+):`)
 	reJobAdded = regexp.MustCompile(`^job added for a file (\d+):`)
 )
@@ -979,8 +979,8 @@ func (r *runner) afterDeath() {
 	if p.noWatcher {
 		res.EnvProblem = "run 1: can't create fs watcher"
 	}
-	if res.KilledBy == "self" || len(p.fatals) > 0 {
-		res.Run1LogTail = sanitize(p.logTail(6000), r.dir)
+	if res.KilledBy == "self" || len(p.fatals) > 0 || (os.Getenv("C03_DEBUG") != "" && r.s.Kind == "stale") {
+		res.Run1LogTail = sanitize(p.logTail(60000), r.dir)
 	}
 	res.D1 = r.readIDs()
 	if b, err := os.ReadFile(filepath.Join(r.dir, "offsets.yaml")); err == nil {
